@@ -178,6 +178,13 @@ fn main() -> miette::Result<()> {
             let contents = StaticSource::new(fs::read_to_string(&name).into_diagnostic()?);
             let air = assemble(&contents)?;
 
+            // Emit every statement before touching the destination, so that a failure
+            // leaves no partially written file behind
+            let mut words = Vec::with_capacity(air.len());
+            for stmt in &air {
+                words.push(stmt.emit()?);
+            }
+
             let out_file_name =
                 dest.unwrap_or(name.with_extension("lc3").file_name().unwrap().into());
             let mut file = File::create(&out_file_name).unwrap();
@@ -190,8 +197,8 @@ fn main() -> miette::Result<()> {
             }
 
             // Write lines
-            for stmt in &air {
-                let _ = file.write(&stmt.emit()?.to_be_bytes());
+            for word in words {
+                let _ = file.write(&word.to_be_bytes());
             }
 
             message(Green, "Finished", "emit binary");
